@@ -20,3 +20,5 @@ mod layout;
 mod c32_descriptor;
 #[cfg(kani)]
 mod c35_sizeclass;
+#[cfg(kani)]
+mod c38_heapsize;
